@@ -12,10 +12,35 @@ Qed.
 Lemma map_to_of_N : forall s : str, map Z.to_N (map Z.of_N s) = s.
 Proof. induction s as [|x s IH]; simpl. reflexivity. rewrite N2Z.id, IH. reflexivity. Qed.
 
+Lemma count_ok : forall (n : nat) (t : list Z), (n <= List.length t)%nat -> count (Z.of_nat n) t = Some n.
+Proof.
+  intros n t H. unfold count.
+  assert (H1 : Z.ltb (Z.of_nat n) 0 = false) by (apply Z.ltb_ge; lia).
+  assert (H2 : Z.ltb (Z.of_nat (List.length t)) (Z.of_nat n) = false) by (apply Z.ltb_ge; lia).
+  rewrite H1, H2, Nat2Z.id. reflexivity.
+Qed.
+
 Lemma dec_enc_str : forall s rest, dec_str (enc_str s ++ rest) = Some (s, rest).
 Proof.
-  intros s rest. unfold dec_str, enc_str. cbn [app]. rewrite Nat2Z.id.
+  intros s rest. unfold dec_str, enc_str. cbn [app].
+  rewrite count_ok by (rewrite app_length, map_length; lia).
   rewrite <- (map_length Z.of_N s). rewrite take_app. rewrite map_to_of_N. reflexivity.
+Qed.
+
+Lemma flat_map_length_ge : forall A (enc : A -> list Z) l, (forall x, enc x <> []) -> (List.length l <= List.length (flat_map enc l))%nat.
+Proof.
+  intros A enc l H. induction l as [|x t IH]; simpl. lia. rewrite app_length.
+  specialize (H x). destruct (enc x). congruence. simpl. lia.
+Qed.
+
+Lemma dec_counted_enc : forall A B (f : A -> B) (enc : A -> list Z) (dec : list Z -> option (B * list Z)),
+  (forall x rest, dec (enc x ++ rest) = Some (f x, rest)) -> (forall x, enc x <> []) ->
+  forall l rest, dec_counted dec ((Z.of_nat (List.length l) :: flat_map enc l) ++ rest) = Some (map f l, rest).
+Proof.
+  intros A B f enc dec H Hne l rest. unfold dec_counted. cbn [app].
+  rewrite count_ok. 2: { rewrite app_length. pose proof (flat_map_length_ge A enc l Hne). lia. }
+  revert rest. induction l as [|x t IH]; intros rest. reflexivity.
+  cbn [List.length flat_map dec_many map]. rewrite <- app_assoc, H, IH. reflexivity.
 Qed.
 
 Lemma dec_enc_val : forall v rest, dec_val (enc_val v ++ rest) = Some (v, rest).
@@ -33,14 +58,20 @@ Proof.
   cbn [List.length flat_map dec_many]. rewrite <- app_assoc, H, IH. reflexivity.
 Qed.
 
+Lemma enc_val_ne : forall v, enc_val v <> [].
+Proof. intros [| | | |]; discriminate. Qed.
+
 Lemma dec_enc_row : forall r rest, dec_row (enc_row r ++ rest) = Some (r, rest).
 Proof.
-  intros r rest. unfold dec_row, enc_row. cbn [app]. rewrite Nat2Z.id. apply dec_many_enc. apply dec_enc_val.
+  intros r rest. unfold dec_row, enc_row.
+  rewrite (dec_counted_enc val val (fun x => x) enc_val dec_val dec_enc_val enc_val_ne). rewrite map_id. reflexivity.
 Qed.
 
 Lemma dec_enc_result : forall rs rest, dec_result (enc_result rs ++ rest) = Some (rs, rest).
 Proof.
-  intros rs rest. unfold dec_result, enc_result. cbn [app]. rewrite Nat2Z.id. apply dec_many_enc. apply dec_enc_row.
+  intros rs rest. unfold dec_result, enc_result.
+  rewrite (dec_counted_enc (list val) (list val) (fun x => x) enc_row dec_row dec_enc_row). rewrite map_id. reflexivity.
+  intros x. discriminate.
 Qed.
 
 Lemma dec_enc_answer : forall a, dec_answer (enc_answer a) = Some a.
@@ -52,9 +83,55 @@ Qed.
 Lemma skip_enc_str : forall s rest, skip_str (enc_str s ++ rest) = Some rest.
 Proof. intros. unfold skip_str. rewrite dec_enc_str. reflexivity. Qed.
 
+Lemma dec_many_enc' : forall A B (f : A -> B) (enc : A -> list Z) (dec : list Z -> option (B * list Z)),
+  (forall x rest, dec (enc x ++ rest) = Some (f x, rest)) ->
+  forall l rest, dec_many dec (List.length l) (flat_map enc l ++ rest) = Some (map f l, rest).
+Proof.
+  intros A B f enc dec H l. induction l as [|x t IH]; intros rest. reflexivity.
+  cbn [List.length flat_map dec_many map]. rewrite <- app_assoc, H, IH. reflexivity.
+Qed.
+
 Lemma skip_enc_vo : forall vo rest, skip_vo (enc_vo vo ++ rest) = Some rest.
 Proof.
-  intros vo rest. unfold skip_vo, enc_vo. cbn [app]. rewrite Nat2Z.id.
-  rewrite (dec_many_enc pentry (fun p => zb (fst p) :: enc_str (snd p))
-             (fun l' => match l' with _ :: t' => option_map (fun x => ((false, fst x), snd x)) (dec_str t') | [] => None end)).
-Abort.
+  intros vo rest. unfold skip_vo, enc_vo.
+  rewrite (dec_counted_enc pentry str snd (fun p : pentry => zb (fst p) :: enc_str (snd p))).
+  reflexivity. intros x r. cbn [app]. apply dec_enc_str. intros x. discriminate.
+Qed.
+
+Lemma val_eqb_refl : forall v, val_eqb v v = true.
+Proof.
+  intros v. destruct v as [|b| | |s]; simpl; try reflexivity. destruct b; reflexivity. apply Z.eqb_refl. apply Z.eqb_refl.
+  induction s as [|x s IH]; simpl. reflexivity. rewrite N.eqb_refl. exact IH.
+Qed.
+Lemma list_eqb_refl : forall A (e : A -> A -> bool), (forall x, e x x = true) -> forall l, list_eqb e l l = true.
+Proof. intros A e H l. induction l as [|x t IH]; simpl. reflexivity. rewrite H, IH. reflexivity. Qed.
+Lemma answer_ok_refl : forall a, answer_ok a a = true.
+Proof.
+  intros [rs|]; simpl. 2: reflexivity. unfold result_eqb. apply list_eqb_refl. apply list_eqb_refl. apply val_eqb_refl.
+Qed.
+
+(* what the oracle reads back from the model's own observation of a query *)
+Lemma spec_run_query : forall m rows q ps,
+  spec_C05 (CQuery m rows q ps) (run_C05 (CQuery m rows q ps)) = answer_ok (eval m rows q ps) (run_query m rows q ps).
+Proof.
+  intros m rows q ps. cbn [spec_C05 run_C05]. destruct (compile m q) as [vo s] eqn:Ec.
+  cbn [hash_text app]. rewrite skip_enc_vo. rewrite skipn_app, Nat.sub_diag, skipn_all. cbn [skipn app].
+  rewrite dec_enc_answer. reflexivity.
+Qed.
+
+Lemma dec_enc_pages : forall pgs, dec_counted dec_result (Z.of_nat (List.length pgs) :: flat_map enc_result pgs) = Some (pgs, []).
+Proof.
+  intros pgs. rewrite <- (app_nil_r (Z.of_nat (List.length pgs) :: flat_map enc_result pgs)).
+  rewrite (dec_counted_enc _ _ (fun x => x) enc_result dec_result dec_enc_result). rewrite map_id. reflexivity.
+  intros x. discriminate.
+Qed.
+
+Lemma spec_run_pages : forall m rows q ps n fuel,
+  spec_C05 (CPages m rows q ps n fuel) (run_C05 (CPages m rows q ps n fuel)) =
+  let r := pages (run_query m rows) q ps n fuel None in
+  Z.eqb (fst r) 0 && answer_ok (eval m rows q ps) (Some (List.concat (snd r))).
+Proof.
+  intros m rows q ps n fuel. cbn [spec_C05 run_C05]. unfold enc_pages.
+  destruct (pages (run_query m rows) q ps n fuel None) as [st pgs]. cbn [fst snd].
+  rewrite dec_enc_pages. reflexivity.
+Qed.
